@@ -310,6 +310,69 @@ theorem loop_lexemes2 (doC : Bool) : ∀ (ts : List Lex2), (∀ t ∈ ts, t.WF) 
       · exact ⟨by simp [EmitOK], fun _ => rfl⟩
       · exact this.2 it hit
 
+/-- **a rendered lexeme list followed by a space is a closed prefix**: whatever text follows the space, the loop
+yields the lexemes' tokens and continues on the tail (`tail` = nothing, or a space and ANY text) -/
+theorem loop_lexemes2_tail (doC : Bool) : ∀ (ts : List Lex2), ts ≠ [] → (∀ t ∈ ts, t.WF) → ∀ (tail : Cps), Sep tail →
+    ∀ (fuel line col : Nat), (render2 ts ++ tail).length < fuel →
+    ∃ pre fuel' line' col', tail.length < fuel' ∧
+      (loop false doC fuel (render2 ts ++ tail) line col).items =
+        pre ++ (loop false doC fuel' tail line' col').items ∧
+      pre.map proj = expectedAll ts ∧ spans pre = render2 ts ∧ ∀ it ∈ pre, EmitOK doC it := by
+  intro ts
+  induction ts with
+  | nil => intro h; exact absurd rfl h
+  | cons t ts ih =>
+    intro _ hwf tail htail fuel line col hf
+    have ht : t.WF := hwf t (by simp)
+    have hts : ∀ u ∈ ts, u.WF := fun u hu => hwf u (List.mem_cons_of_mem _ hu)
+    obtain ⟨k, rfl⟩ : ∃ k, fuel = k + 1 := ⟨fuel - 1, by omega⟩
+    obtain ⟨c0, w0, hw0, _⟩ := lex2_head t ht
+    cases ts with
+    | nil =>
+      obtain ⟨l', c', hstep⟩ := lex2_step doC t ht tail htail k line col
+      refine ⟨[⟨t.typ, t.value, line, col, t.text, t.text, doC || t.typ != "COMMENT"⟩], k, l', c', ?_, ?_, ?_, ?_, ?_⟩
+      · simp only [render2, List.length_append, hw0, List.length_cons] at hf; omega
+      · simp only [render2, hstep, Res.cons]; rfl
+      · simp [expectedAll, proj]
+      · simp [render2]
+      · intro it hit; simp only [List.mem_singleton] at hit; rw [hit]; rfl
+    | cons u us =>
+      have hu : u.WF := hts u (by simp)
+      have htext : render2 (t :: u :: us) ++ tail = t.text ++ 32 :: (render2 (u :: us) ++ tail) := by
+        simp [render2, List.append_assoc]
+      rw [htext] at hf ⊢
+      obtain ⟨l1, c1, hstep⟩ := lex2_step doC t ht (32 :: (render2 (u :: us) ++ tail)) (Or.inr ⟨_, rfl⟩) k line col
+      obtain ⟨hc, hw, hhead, hin⟩ := render2_head u us hu
+      have hlen : (render2 (u :: us) ++ tail).length + 1 < k := by
+        simp only [List.length_append, List.length_cons, hw0] at hf ⊢
+        omega
+      obtain ⟨k', rfl⟩ : ∃ k', k = k' + 1 := ⟨k - 1, by omega⟩
+      obtain ⟨l2, c2, hsp⟩ := space_step doC (render2 (u :: us) ++ tail)
+        (Or.inr ⟨hc, hw ++ tail, by rw [hhead]; rfl, hin⟩) k' l1 c1
+      obtain ⟨pre', fuel', l', c', hf', hitems, hmap, hspans, hemit⟩ :=
+        ih (by simp) hts tail htail k' l2 c2 (by omega)
+      refine ⟨⟨t.typ, t.value, line, col, t.text, t.text, doC || t.typ != "COMMENT"⟩ ::
+        ⟨"S", [32], l1, c1, [32], [32], true⟩ :: pre', fuel', l', c', hf', ?_, ?_, ?_, ?_⟩
+      · simp only [hstep, hsp, Res.cons, hitems, List.cons_append]
+      · simp [expectedAll, proj, hmap]
+      · simp [render2, hspans]
+      · intro it hit
+        simp only [List.mem_cons] at hit
+        rcases hit with rfl | rfl | hit
+        · rfl
+        · simp [EmitOK]
+        · exact hemit it hit
+
+theorem tokensAt_lexemes_tail (doC : Bool) (ts : List Lex2) (hne : ts ≠ []) (h : ∀ t ∈ ts, t.WF) (tail : Cps)
+    (htail : Sep tail) (line col : Nat) :
+    ∃ pre line' col', tokensAt doC (render2 ts ++ tail) line col = pre ++ tokensAt doC tail line' col' ∧
+      pre.map proj = expectedAll ts ∧ spans pre = render2 ts ∧ ∀ it ∈ pre, EmitOK doC it := by
+  obtain ⟨pre, fuel', l', c', hf', hitems, hmap, hspans, hemit⟩ :=
+    loop_lexemes2_tail doC ts hne h tail htail ((render2 ts ++ tail).length + 1) line col (Nat.lt_succ_self _)
+  refine ⟨pre, l', c', ?_, hmap, hspans, hemit⟩
+  unfold tokensAt
+  rw [hitems, loop_fuel false doC fuel' tail l' c' (tail.length + 1) hf' (Nat.lt_succ_self _)]
+
 theorem filter_emit_proj (doC : Bool) : ∀ (items : List Item), (∀ it ∈ items, EmitOK doC it) →
     (items.filter (·.emit)).map proj = (items.map proj).filter (fun p => doC || p.1 != "COMMENT") := by
   intro items
